@@ -236,6 +236,26 @@ type Env struct {
 	CellType  func(string) types.Type
 	UserSig   map[string]*types.Signature
 	Idents    map[string]bool // when set: the identifiers the function under contract can name (lock names are checked against it)
+	PatSeen   map[string]bool // when set: event patterns of heldat / notheldat -> matched by some event on some path of the unit
+}
+
+// notePat records that a lock-discipline clause looked for pattern pat, and whether an event of this path matched it.
+func (e *Env) notePat(pat string, matched bool) {
+	if e.PatSeen == nil {
+		return
+	}
+	if matched {
+		e.PatSeen[pat] = true
+	} else if _, ok := e.PatSeen[pat]; !ok {
+		e.PatSeen[pat] = false
+		if os.Getenv("ROVC_DEBUG") != "" {
+			var ns []string
+			for _, ev := range e.Events {
+				ns = append(ns, ev.Name)
+			}
+			fmt.Fprintf(os.Stderr, "PAT %s first path events: %s\n", pat, strings.Join(ns, " "))
+		}
+	}
 }
 
 // lockKnown: a lock named by heldat / notheldat exists for this function (otherwise the clause does not bind: a renamed
@@ -859,8 +879,10 @@ func (e *Env) callExpr(ex *ast.CallExpr) (SVal, error) {
 			return SVal{}, fmt.Errorf("unknown identifier %s (a lock named by heldat)", argStr(0))
 		}
 		pat := e.resolveEventName(argStr(1))
+		e.notePat(pat, false)
 		for _, ev := range e.Events {
 			if eventNameMatch(pat, ev.Name) {
+				e.notePat(pat, true)
 				ok := false
 				for _, h := range ev.Held {
 					if h == argStr(0) {
@@ -878,8 +900,10 @@ func (e *Env) callExpr(ex *ast.CallExpr) (SVal, error) {
 			return SVal{}, fmt.Errorf("unknown identifier %s (a lock named by notheldat)", argStr(0))
 		}
 		pat := e.resolveEventName(argStr(1))
+		e.notePat(pat, false)
 		for _, ev := range e.Events {
 			if eventNameMatch(pat, ev.Name) {
+				e.notePat(pat, true)
 				for _, h := range ev.Held {
 					if h == argStr(0) {
 						return mkBool("false"), nil
